@@ -161,9 +161,9 @@ Proof.
   apply bind_Panic_inv in H. destruct H as [H|(d' & _ & H)]; [exact (poke_u32_no_panic _ _ _ _ _ H) | exact (IH _ _ _ _ H)].
 Qed.
 
-Theorem serialize_no_panic m a p : a_cstrs a = [] -> size a < U32 -> serialize m a <> Panic p.
+Theorem serialize_no_panic kf m a p : a_cstrs a = [] -> size a < U32 -> serialize_k kf m a <> Panic p.
 Proof.
-  intros Hc Hs. unfold serialize. rewrite Hc.
+  intros Hc Hs. unfold serialize_k. rewrite Hc.
   change (isort (fun x y : bytes * list N => bytes_leb (fst x) (fst y)) []) with (@nil (bytes * list N)).
   cbn [cstr_pool]. change (pad_to 4 (p_raw pool_empty)) with (@nil N). intros H.
   apply bind_Panic_inv in H. destruct H as [H|(d1 & _ & H)]; [exact (poke_all_no_panic _ _ _ _ H)|].
@@ -174,5 +174,5 @@ Proof.
   rewrite trunc_small in H by exact Hs. rewrite add_w_ok in H; [discriminate|]. unfold maxw. change (2 ^ 32) with U32. lia.
 Qed.
 
-Theorem reserialize_no_panic e f a m p : wfb f -> from_bytes e f = Ok a -> serialize m a <> Panic p.
+Theorem reserialize_no_panic kf e f a m p : wfb f -> from_bytes e f = Ok a -> serialize_k kf m a <> Panic p.
 Proof. intros Hw H. destruct (from_bytes_shape e f a Hw H) as [Hc Hs]. apply serialize_no_panic; assumption. Qed.
